@@ -251,9 +251,9 @@ class CFG:
             return
         if not ctx:
             if kind == "return":
-                self._connect(dangling, self.exit)
+                self._connect(dangling, self.exit, relabel="return")
             elif kind == "exc":
-                self._connect(dangling, self.raise_exit)
+                self._connect(dangling, self.raise_exit, relabel="raise")
             else:
                 raise CFGError(f"'{kind}' outside a loop in {self.func.name}")
             return
